@@ -34,14 +34,14 @@ BOUNDS = {
                       "three concrete ring shapes (capacity 4); unwind 6-8",
             "outside": "longer sequences, more than 3 IoSlice slots, induction over nesting depth (paper argument; depth 3/4 instantiated), VecDeque internals beyond 4 elements",
             "assumptions": ["every lawful deterministic Buf is observationally one SymBuf"]},
-    "C10": {"bounds": "value width + 1 bytes per buffer; all chunkings for widths <= 4 (quick) / <= 16 (thorough), one symbolic cut + 1-byte and 3-byte chunks "
+    "C10": {"bounds": "value width or width + 1 bytes per buffer (exact fit and one spare byte); all chunkings for widths <= 4 (quick) / <= 16 (thorough), one symbolic cut + 1-byte and 3-byte chunks "
                       "for 8/16-byte values; nbytes symbolic 0..=8; shortfall symbolic; unwind width+2",
             "outside": "big-endian targets (native-endian methods are checked on the little-endian build only)", "assumptions": []},
-    "C11": {"bounds": "windows of width+4 bytes with guard bytes, symbolic split / limit / chunking; growable targets with concrete nbytes (0,3,8 quick; 0..=8 thorough)",
+    "C11": {"bounds": "windows of width+4 bytes with guard bytes (Chain: two separate guard arrays), symbolic split / limit / chunking; growable targets with concrete nbytes (0,3,8 quick; 0..=8 thorough)",
             "outside": "windows > 20 bytes, Vec/BytesMut growth beyond one reallocation", "assumptions": ["bytes::panic_advance replaced by an observer stub in the does-not-fit harnesses"]},
     "C12": {"bounds": "as C09 for the Buf side; BufMut side: 8-byte guard arrays, symbolic limit over all of usize, symbolic split, sources <= 3 bytes",
             "outside": "std::io default methods (read_to_end, read_line, write_all ...)", "assumptions": []},
-    "C13": {"bounds": "arguments symbolic over the entire out-of-contract region of usize on the step states; E2 path queries are unbounded CFG facts",
+    "C13": {"bounds": "arguments symbolic over the entire out-of-contract region of usize on the step states, debug assertions on and off for the in-crate families; E2 path queries are unbounded CFG facts",
             "outside": "execution after unwinding (Kani: panic = abort): 'state after catch_unwind' is replaced by 'the panic is the first effect' (E2) and 'the call does not return'",
             "assumptions": []},
     "C14": {"bounds": "both operands symbolic, lengths 0..=3, all 256 byte values; str/String operands ASCII; aliasing views of one 4-byte buffer for Bytes/Bytes; unwind 6 (10 for Hash)",
@@ -53,6 +53,6 @@ BOUNDS = {
     "C17": {"bounds": "4 iterations of every consumer loop (no unwinding assertions: a liar may loop a consumer forever), remaining() lies in 0..=12 or usize::MAX, chunks = any sub-slice of an 8-byte array",
             "outside": "leak-freedom on panicking paths, lies of unsafe-trait (BufMut) implementors", "assumptions": ["--prove-safety-only: panics and wrong results are allowed by the property"]},
     "C18": {"bounds": "allocation of 8 bytes, one round from the class R(C) with symbolic n, k, offset and form; symbolic capacity class 1..=7 for the replacement buffer",
-            "outside": "retention windows > 0, the literal 10^3..10^6-round histories (replaced by the induction), consumption by split+freeze inside one harness (decided by arc_freeze + the round without freeze)",
+            "outside": "retention windows > 0, the literal 10^3..10^6-round histories (replaced by the induction), consumption by split+freeze inside one harness (decided by arc_freeze + the round without freeze); Bytes round trips: concrete shapes of the inline form (vec_roundtrip_*), arbitrary states for the conversion steps",
             "assumptions": []},
 }
